@@ -91,7 +91,7 @@ Section Generic.
   Definition typed_op (st : strategy) (o : raw_op) : Prop :=
     r_node_ok o = true
     /\ (forall p, In p (r_params o) -> p = POk)
-    /\ (forall k ok, In (k, ok) (r_resp o) -> (exists s, k = KStr s) /\ ok = true)
+    /\ (forall k ok, In (k, ok) (r_resp o) -> ok = true)   (* any key: it is passed on as str(key) *)
     /\ r_tags o <> TBad
     /\ derive_id st o <> [].
   Definition typed_doc (st : strategy) (doc : list raw_op) : Prop :=
@@ -104,8 +104,8 @@ Section Generic.
     assert (P : forallb is_pok (r_params o) = true).
     { apply forallb_forall. intros p Hin. rewrite (Hp p Hin). reflexivity. }
     rewrite P. simpl.
-    assert (R : forallb (fun kb => is_kstr (fst kb) && snd kb) (r_resp o) = true).
-    { apply forallb_forall. intros [k ok] Hin. destruct (Hr k ok Hin) as [[s ->] ->]. reflexivity. }
+    assert (R : forallb (fun kb => snd kb) (r_resp o) = true).
+    { apply forallb_forall. intros [k ok] Hin. simpl. exact (Hr k ok Hin). }
     rewrite R. simpl.
     destruct (Tags.derive_id method_name clean_id st o) eqn:E; [contradiction Hi; reflexivity|]. simpl.
     destruct (r_tags o); try reflexivity. contradiction Ht; reflexivity.
@@ -118,10 +118,10 @@ Section Generic.
   Qed.
 
   Theorem guard_none_dropped : forall st doc,
-    guard_F07b method_name clean_id st doc = true -> parse st doc = map (mk_op st) (ops doc).
+    guard_F07f method_name clean_id st doc = true -> parse st doc = map (mk_op st) (ops doc).
   Proof. intros st doc H. unfold Tags.parse. rewrite (filter_all _ _ H). reflexivity. Qed.
 
-  Theorem typed_guard : forall st doc, typed_doc st doc -> guard_F07b method_name clean_id st doc = true.
+  Theorem typed_guard : forall st doc, typed_doc st doc -> guard_F07f method_name clean_id st doc = true.
   Proof. intros st doc H. apply forallb_forall. intros o Hin. apply typed_op_ok, H, Hin. Qed.
 
   Theorem none_dropped : forall st doc, typed_doc st doc ->
@@ -143,21 +143,30 @@ Section Generic.
   Qed.
 
   (* ---------------------------------------------------------------- de-dup *)
-  Lemma dedup_go_fix : forall l seen,
-    (forall o, In o l -> alookup (mn o) seen = None) ->
-    NoDup (map mn l) -> dedup_go seen l = l.
+  Lemma mem_str_false : forall x l, mem_str x l = false <-> ~ In x l.
   Proof.
-    induction l as [|o l IH]; intros seen Hs Hn; simpl; [reflexivity|].
-    rewrite (Hs o (or_introl eq_refl)). f_equal.
+    intros x l. split.
+    - intros H Hin. apply mem_str_In in Hin. congruence.
+    - intro H. destruct (mem_str x l) eqn:E; [apply mem_str_In in E; contradiction | reflexivity].
+  Qed.
+
+  Lemma dedup_go_fix : forall l used,
+    (forall o, In o l -> ~ In (mn o) used) ->
+    NoDup (map mn l) -> dedup_go used l = l.
+  Proof.
+    induction l as [|o l IH]; intros used Hs Hn; simpl; [reflexivity|].
+    assert (E : mem_str (method_name (o_id o)) used = false)
+      by (apply mem_str_false, Hs; left; reflexivity).
+    rewrite E. f_equal.
     inversion Hn as [|? ? Hni Hn']; subst. apply IH; [|exact Hn'].
-    intros o' Hin. rewrite alookup_aset_other.
-    - apply Hs. right. exact Hin.
-    - intro E. apply Hni. rewrite <- E. apply (in_map mn). exact Hin.
+    intros o' Hin [Heq|Hu].
+    - apply Hni. rewrite Heq. apply (in_map mn). exact Hin.
+    - apply (Hs o' (or_intror Hin)). exact Hu.
   Qed.
 
   (* a list whose method names are already unique is a fixpoint of the de-dup pass *)
   Theorem dedup_fix : forall l, NoDup (map mn l) -> dedup_ops l = l.
-  Proof. intros l H. apply dedup_go_fix; [reflexivity | exact H]. Qed.
+  Proof. intros l H. apply dedup_go_fix; [intros o _ [] | exact H]. Qed.
 
   Lemma nodupb_NoDup : forall l, nodupb l = true <-> NoDup l.
   Proof.
@@ -169,29 +178,63 @@ Section Generic.
         destruct (mem_str x l) eqn:E; [apply mem_str_In in E; contradiction | reflexivity].
   Qed.
 
-  Theorem emitted_unique : forall l, guard_F07a method_name l = true ->
+  Lemma find_free_spec : forall f used i n r,
+    find_free method_name f used i n = Some r ->
+    ~ In (method_name r) used /\ exists c, r = i ++ [c_us] ++ dec c.
+  Proof.
+    induction f as [|f IH]; intros used i n r H; simpl in H; [discriminate|].
+    destruct (mem_str (method_name (i ++ c_us :: dec n)) used) eqn:E.
+    - apply (IH _ _ _ _ H).
+    - inversion H; subst r. split; [apply mem_str_false, E | exists n; reflexivity].
+  Qed.
+
+  (* THE de-dup theorem (F07a fixed): whenever the suffix search succeeds (always, within the model
+     bound), the resulting method names are pairwise distinct — for every operation list *)
+  Lemma dedup_go_unique : forall l used, dedup_total_go method_name used l = true ->
+    NoDup (map mn (dedup_go used l)) /\ (forall x, In x (map mn (dedup_go used l)) -> ~ In x used).
+  Proof.
+    induction l as [|o l IH]; intros used H; [split; [constructor | intros x []]|].
+    cbn [Tags.dedup_go Tags.dedup_total_go] in *.
+    destruct (mem_str (method_name (o_id o)) used) eqn:E.
+    - destruct (find_free method_name (S (length used)) used (o_id o) 2) as [i|] eqn:F; [|discriminate].
+      destruct (find_free_spec _ _ _ _ _ F) as [Hfree _].
+      destruct (IH _ H) as [I1 I2]. simpl. split.
+      + constructor; [|exact I1]. intro Hin. apply (I2 _ Hin). left. reflexivity.
+      + intros x [<-|Hin]; [exact Hfree|]. intro Hu. apply (I2 _ Hin). right. exact Hu.
+    - destruct (IH _ H) as [I1 I2]. simpl. split.
+      + constructor; [|exact I1]. intro Hin. apply (I2 _ Hin). left. reflexivity.
+      + intros x [<-|Hin]; [apply mem_str_false, E|]. intro Hu. apply (I2 _ Hin). right. exact Hu.
+  Qed.
+
+  Theorem dedup_unique : forall l, dedup_total method_name l = true -> NoDup (map mn (dedup_ops l)).
+  Proof. intros l H. apply (dedup_go_unique l [] H). Qed.
+
+  (* idempotence: the second emit() pass of the direct path changes nothing *)
+  Theorem emitted_unique : forall l, dedup_total method_name l = true ->
     emitted_ops l = dedup_ops l /\ NoDup (map mn (emitted_ops l)).
   Proof.
-    intros l H. apply nodupb_NoDup in H. unfold Tags.emitted_ops.
-    rewrite (dedup_fix _ H). split; [reflexivity | exact H].
+    intros l H. pose proof (dedup_unique l H) as U. unfold Tags.emitted_ops.
+    rewrite (dedup_fix _ U). split; [reflexivity | exact U].
   Qed.
 
   (* shape of de-duplicated ids: unchanged, or the raw id followed by "_<counter>" *)
   Definition suffixed (o o' : op) : Prop :=
-    o' = o \/ exists c, o' = set_id o (o_id o ++ [c_us] ++ dec (c + 1)).
+    o' = o \/ exists c, o' = set_id o (o_id o ++ [c_us] ++ dec c).
 
-  Lemma dedup_go_shape : forall l seen, Forall2 suffixed l (dedup_go seen l).
+  Lemma dedup_go_shape : forall l used, Forall2 suffixed l (dedup_go used l).
   Proof.
-    induction l as [|o l IH]; intro seen; simpl; [constructor|].
-    destruct (alookup (method_name (o_id o)) seen) as [c|]; constructor; try apply IH.
-    - right. exists c. reflexivity.
-    - left. reflexivity.
+    induction l as [|o l IH]; intro used; [constructor|]. cbn [Tags.dedup_go].
+    destruct (mem_str (method_name (o_id o)) used).
+    - destruct (find_free method_name (S (length used)) used (o_id o) 2) as [i|] eqn:F; constructor; try apply IH.
+      + right. destruct (find_free_spec _ _ _ _ _ F) as [_ [c ->]]. exists c. reflexivity.
+      + left. reflexivity.
+    - constructor; [left; reflexivity | apply IH].
   Qed.
 
-  Lemma dedup_go_length : forall l seen, length (dedup_go seen l) = length l.
+  Lemma dedup_go_length : forall l used, length (dedup_go used l) = length l.
   Proof.
-    induction l as [|o l IH]; intro seen; simpl; [reflexivity|].
-    destruct (alookup (method_name (o_id o)) seen); simpl; rewrite IH; reflexivity.
+    intros l used. pose proof (dedup_go_shape l used) as S.
+    induction S as [|a b l1 l2 _ _ IH]; simpl; [reflexivity | rewrite IH; reflexivity].
   Qed.
 
   Lemma suffixed_tags : forall o o', suffixed o o' ->
@@ -425,10 +468,11 @@ Section Generic.
     rewrite (flat_map_contrib_filter e k G). apply NoDup_map_filter, Hn.
   Qed.
 
-  Lemma dedup_go_tags : forall l seen, map o_tags (dedup_go seen l) = map o_tags l.
+  Lemma dedup_go_tags : forall l used, map o_tags (dedup_go used l) = map o_tags l.
   Proof.
-    induction l as [|o l IH]; intro seen; simpl; [reflexivity|].
-    destruct (alookup (method_name (o_id o)) seen); simpl; rewrite IH; reflexivity.
+    intros l used. pose proof (dedup_go_shape l used) as S.
+    induction S as [|a b l1 l2 H _ IH]; simpl; [reflexivity|].
+    destruct (suffixed_tags _ _ H) as (E & _). rewrite E, IH. reflexivity.
   Qed.
 
   Lemma guard_F07c_tags : forall a b, map o_tags a = map o_tags b -> guard_F07c tag_key a = guard_F07c tag_key b.
@@ -449,10 +493,11 @@ Section Generic.
   Definition doc_distinct (doc : list raw_op) : Prop :=
     NoDup (map (fun r => (upper_str (r_method r), r_path r)) (ops doc)).
 
-  Lemma dedup_go_mp : forall l seen, map mp (dedup_go seen l) = map mp l.
+  Lemma dedup_go_mp : forall l used, map mp (dedup_go used l) = map mp l.
   Proof.
-    induction l as [|o l IH]; intro seen; simpl; [reflexivity|].
-    destruct (alookup (method_name (o_id o)) seen); simpl; rewrite IH; reflexivity.
+    intros l used. pose proof (dedup_go_shape l used) as S.
+    induction S as [|a b l1 l2 H _ IH]; simpl; [reflexivity|].
+    destruct (suffixed_tags _ _ H) as (_ & E1 & E2). unfold mp at 1 3. rewrite E1, E2, IH. reflexivity.
   Qed.
 
   Lemma NoDup_map_inj_in : forall {A B} (f : A -> B) l a b,
@@ -476,8 +521,8 @@ Section Generic.
 
   Theorem partial : forall st doc,
     doc_distinct doc ->
-    guard_F07b method_name clean_id st doc = true ->
-    guard_F07a method_name (parse st doc) = true ->
+    guard_F07f method_name clean_id st doc = true ->
+    dedup_total method_name (parse st doc) = true ->
     guard_F07c tag_key (parse st doc) = true ->
     let e := emitted_ops (parse st doc) in
     length e = length (ops doc)
@@ -522,39 +567,41 @@ Definition ids_F07a1 : list op := [mkid s_foo; mkid s_foo; mkid s_foo_2].
 (* F07a — the two passes of the direct path: foo, foo, foo_2, foo_2_2 -> foo, foo_2, foo_2_2, foo_2_2 *)
 Definition ids_F07a : list op := [mkid s_foo; mkid s_foo; mkid s_foo_2; mkid s_foo_2_2].
 
-Lemma not_nodup_adjacent : forall (x : str) a l, ~ NoDup (a ++ x :: x :: l).
+(* F07a FIXED — regression: the old witnesses now end with pairwise distinct method names, and the
+   pass is idempotent on them *)
+Theorem fixed_F07a :
+  map o_id (dedup_ops idf ids_F07a1) = [s_foo; s_foo_2; s_foo_2_2]
+  /\ dedup_ops idf (dedup_ops idf ids_F07a1) = dedup_ops idf ids_F07a1
+  /\ map o_id (emitted_ops idf ids_F07a) = [s_foo; s_foo_2; s_foo_2_2; s_foo_2_2 ++ [95;50]]
+  /\ dedup_total idf ids_F07a = true
+  /\ NoDup (map (fun o => idf (o_id o)) (emitted_ops idf ids_F07a)).
 Proof.
-  intros x a l H. apply NoDup_remove_2 in H. apply H. apply in_or_app. right. left. reflexivity.
+  repeat split; try (vm_compute; reflexivity).
+  apply (emitted_unique idf). vm_compute. reflexivity.
 Qed.
 
-Theorem refuted_F07a_single :
-  guard_F07a idf ids_F07a1 = false /\ ~ NoDup (map (fun o => idf (o_id o)) (dedup_ops idf ids_F07a1)).
-Proof. split; [vm_compute; reflexivity|]. vm_compute. apply (not_nodup_adjacent _ [_]). Qed.
-
-Theorem refuted_F07a :
-  guard_F07a idf ids_F07a = false /\ ~ names_unique idf idf (emitted_ops idf ids_F07a).
-Proof.
-  split; [vm_compute; reflexivity|]. intro H.
-  specialize (H s_default (emitted_ops idf ids_F07a)).
-  assert (X : In (s_default, emitted_ops idf ids_F07a) (group idf (emitted_ops idf ids_F07a))).
-  { vm_compute. left. reflexivity. }
-  apply H in X. vm_compute in X. revert X. apply (not_nodup_adjacent _ [_; _]).
-Qed.
-
-Theorem dedup_not_idempotent : dedup_ops idf (dedup_ops idf ids_F07a1) <> dedup_ops idf ids_F07a1.
-Proof. vm_compute. discriminate. Qed.
-
-(* F07b — YAML `200:` *)
+(* F07b FIXED — regression: the YAML `200:` document keeps both operations *)
 Definition doc_F07b : list raw_op :=
   [ {| r_path := s_pa; r_method := [103;101;116]; r_node_ok := true; r_opid := Some s_a; r_tags := TAbsent;
        r_resp := [(KInt 200, true)]; r_params := [] |};
     {| r_path := s_pa; r_method := [112;111;115;116]; r_node_ok := true; r_opid := Some s_b; r_tags := TAbsent;
        r_resp := [(KStr s_default, true)]; r_params := [] |} ].
+Theorem fixed_F07b :
+  guard_F07f idf no_clean SOpId doc_F07b = true
+  /\ length (parse idf no_clean SOpId doc_F07b) = length (ops doc_F07b)
+  /\ length (ops doc_F07b) = 2%nat.
+Proof. repeat split; vm_compute; reflexivity. Qed.
 
-Theorem refuted_F07b :
-  guard_F07b idf no_clean SOpId doc_F07b = false
-  /\ ~ visible_failure idf idf idf idf no_clean no_score (fun _ => true) SOpId doc_F07b
-  /\ length (parse idf no_clean SOpId doc_F07b) = 1%nat /\ length (ops doc_F07b) = 2%nat.
+(* F07f — the blanket except: a parameter without name makes POST /a vanish, generation succeeds *)
+Definition doc_F07f : list raw_op :=
+  [ {| r_path := s_pa; r_method := [103;101;116]; r_node_ok := true; r_opid := Some s_a; r_tags := TAbsent;
+       r_resp := [(KStr s_default, true)]; r_params := [] |};
+    {| r_path := s_pa; r_method := [112;111;115;116]; r_node_ok := true; r_opid := Some s_b; r_tags := TAbsent;
+       r_resp := [(KStr s_default, true)]; r_params := [PNoName] |} ].
+Theorem refuted_F07f :
+  guard_F07f idf no_clean SOpId doc_F07f = false
+  /\ ~ visible_failure idf idf idf idf no_clean no_score (fun _ => true) SOpId doc_F07f
+  /\ length (parse idf no_clean SOpId doc_F07f) = 1%nat /\ length (ops doc_F07f) = 2%nat.
 Proof.
   split; [vm_compute; reflexivity|]. split; [|split; vm_compute; reflexivity].
   intro H. apply visible_failure_iff in H. vm_compute in H. discriminate.
@@ -615,8 +662,8 @@ Definition doc_ok : list raw_op :=
 
 Theorem guard_nonvacuous :
   doc_distinct doc_ok
-  /\ guard_F07b idf no_clean SOpId doc_ok = true
-  /\ guard_F07a idf (parse idf no_clean SOpId doc_ok) = true
+  /\ guard_F07f idf no_clean SOpId doc_ok = true
+  /\ dedup_total idf (parse idf no_clean SOpId doc_ok) = true
   /\ guard_F07c key_F07c (parse idf no_clean SOpId doc_ok) = true
   /\ length (ops doc_ok) = 2%nat
   /\ map o_id (emitted_ops idf (parse idf no_clean SOpId doc_ok)) = [s_a; s_a ++ [95;50]].
